@@ -6,7 +6,7 @@ wt=/tmp/seedeval/$id; rm -rf $wt; mkdir -p /tmp/seedeval
 git -C /repo worktree add -q --detach $wt HEAD || exit 2
 (cd $wt && git apply $src/patch.diff) || { echo "$id: patch does not apply"; git -C /repo worktree remove --force $wt; exit 1; }
 for p in $props; do
-  out=$(cd /verif && VF_REPO=$wt ./check $p 2>&1); rc=$?
+  out=$(cd /verif && VF_REPO=$wt ./check $p $CHECK_ARGS 2>&1); rc=$?
   echo "$id $p rc=$rc :: $(echo "$out" | grep -m1 -A1 '^VIOLATION' | tr '\n' ' ' | cut -c1-300) :: $(echo "$out" | tail -1 | cut -c1-160)"
 done
 git -C /repo worktree remove --force $wt
